@@ -4,7 +4,7 @@
    [split_off] = Deserializer::split_off_serialized_value, [peek_kind] = SerializedValueSlice::kind.
    [b] ranges over ALL byte strings. *)
 From Aldrin Require Import Codec.Base Codec.Value Codec.De Codec.Skip Props.C07_lemmas
-  Codec.SkipProofs.
+  Codec.SkipProofs Codec.Amplify.
 Open Scope N_scope.
 
 Theorem C07_skip_agrees : forall b v r, de_value true b = Ok (v, r) -> skip_value b = Ok r.
@@ -31,6 +31,14 @@ Print Assumptions C07_peek_kind.
 Theorem C07_total : forall b, de_value true b <> Err Fuel /\ skip_value b <> Err Fuel.
 Proof. exact totals. Qed.
 Print Assumptions C07_total.
+
+(* the decoded tree (nodes + string/bytes payload + keys) is never larger than the input consumed:
+   no length field can make the decoder build more than it was given (model-level form of the
+   allocation bound; the byte-level bound is observed by the harness) *)
+Theorem C07_no_amplification : forall utf8 b v r,
+  de_value utf8 b = Ok (v, r) -> (vsize v + length r <= length b)%nat.
+Proof. exact no_amplification. Qed.
+Print Assumptions C07_no_amplification.
 
 (* the tie to the source expression the defect lived in *)
 Theorem C07_key_skip_widths : forall i, key_skip_width i = int_width i.
